@@ -35,6 +35,15 @@ type RunResult struct {
 	Hash    uint64        `json:"hash"`
 }
 
+// SampleRun is one explored case written out in full (first events of one run) for the evidence file.
+type SampleRun struct {
+	Seed        int64         `json:"seed"`
+	Config      world.Config  `json:"config"`
+	TotalEvents int           `json:"total_events"`
+	Calls       int           `json:"oracle_judged_calls"`
+	FirstEvents []world.Event `json:"first_events"`
+}
+
 // FoundJSON is a violation in serialisable form.
 type FoundJSON struct {
 	Props  []string `json:"props"`
@@ -58,6 +67,7 @@ type WorkerOut struct {
 	Violating []RunResult       `json:"violating,omitempty"`
 	Foreign   map[string]int    `json:"foreign,omitempty"`
 	ForeignSamples []string     `json:"foreign_samples,omitempty"`
+	SampleRun *SampleRun        `json:"sample_run,omitempty"`
 	RunHashes map[string]uint64 `json:"run_hashes,omitempty"`
 	Samples   []string          `json:"samples,omitempty"`
 	EpochEvs  int               `json:"epoch_events"`
@@ -356,6 +366,10 @@ func worker(ps *PropSpec, from, to int64, outPath string, keepHashes bool, maxVi
 		}
 		if len(out.Samples) < 3 && len(w.Trace) > 0 {
 			out.Samples = append(out.Samples, sampleOf(seed, w))
+		}
+		if out.SampleRun == nil && len(w.Trace) > 30 {
+			n := 14
+			out.SampleRun = &SampleRun{Seed: seed, Config: w.Cfg, TotalEvents: len(w.Trace), Calls: w.Stats.Calls, FirstEvents: append([]world.Event{}, w.Trace[16:16+n]...)}
 		}
 		if len(res.Found) > 0 {
 			mine := false
@@ -745,6 +759,9 @@ func parent(ps *PropSpec, tier string, seed int64, runs, workers int, verifDir s
 		if len(agg.Samples) < 4 {
 			agg.Samples = append(agg.Samples, wo.Samples...)
 		}
+		if agg.SampleRun == nil {
+			agg.SampleRun = wo.SampleRun
+		}
 	}
 	if trouble != "" {
 		fmt.Fprintln(os.Stderr, "HARNESS TROUBLE:", trouble)
@@ -971,6 +988,9 @@ func writeEvidence(ps *PropSpec, tier string, seed int64, agg *WorkerOut, nstate
 		depCalls[world.DepNames[i]] = n
 	}
 	samples := []interface{}{}
+	if agg.SampleRun != nil {
+		samples = append(samples, agg.SampleRun)
+	}
 	for _, s := range agg.Samples {
 		samples = append(samples, s)
 	}
